@@ -36,6 +36,7 @@ const (
 	keyLatePing   = "sse:ping-after-complete"
 	keyRaceFinish = "sse:keepalive-uses-responsewriter-after-handler-returned"
 	keyCrash      = "sse:server-crash-keepalive-write-after-handler-returned"
+	keyStuck      = "sse:keepalive-goroutine-parked-on-mutex-forever"
 	maxDiagnosed  = 6
 )
 
